@@ -252,7 +252,14 @@ def run_case(case, rec, ctx):
         return
     if chk == "builder":
         ph = getattr(D, case["phsp"])
-        builder = B.RelativisticBreitWignerBuilder(form_factor=case["ff"], energy_dependent_width=case["edw"], phsp_factor=ph)
+        if case["rep"] % 2:
+            # positional construction in the documented order (form_factor, energy_dependent_width, phsp_factor)
+            builder = B.RelativisticBreitWignerBuilder(case["ff"], case["edw"], ph)
+            rec.check(builder.form_factor == case["ff"] and builder.energy_dependent_width == case["edw"] and builder.phsp_factor is ph, "builder_constructor",
+                      f"RelativisticBreitWignerBuilder({case['ff']}, {case['edw']}, {case['phsp']}) positionally gives form_factor={builder.form_factor}, "
+                      f"energy_dependent_width={builder.energy_dependent_width}", None, {"check": "builder", "construction": "positional"})
+        else:
+            builder = B.RelativisticBreitWignerBuilder(form_factor=case["ff"], energy_dependent_width=case["edw"], phsp_factor=ph)
         res = _particle(rng)
         rec.sample("builder", {**case, "resonance": {"mass": res.mass, "width": res.width}})
         builder(res, _pool(ctx, case["L"]))  # judged by the attached contract
